@@ -29,6 +29,9 @@ fn base_requests() -> Vec<(String, Vec<u8>)> {
     ] {
         v.push((name.to_string(), rtu_frame(UNIT, &pdu)));
     }
+    // addresses in the reserved range 248..=255 (255 is the library's default unit id)
+    v.push(("read_holding_unit248".to_string(), rtu_frame(248, &[3, 0x00, 0x10, 0x00, 0x03])));
+    v.push(("write_single_reg_unit255".to_string(), rtu_frame(255, &[6, 0x00, 0x10, 0x12, 0x34])));
     // bigger ones
     let mut p = vec![16u8, 0x01, 0x00, 0x00, 0x10, 0x20];
     p.extend((0..32u8).map(|x| x.wrapping_mul(7)));
@@ -53,6 +56,10 @@ fn base_responses() -> Vec<(String, ClientReq, Vec<u8>)> {
         ClientReq::WriteMultiRegs { start: 0x10, values: vec![1, 2] },
         ClientReq::Read { kind: Kind::ReadHolding, start: 0, count: 20 },
     ];
+    for (unit, r) in [(248u8, ClientReq::Read { kind: Kind::ReadHolding, start: 0x10, count: 3 }), (255, ClientReq::WriteSingleReg { addr: 0x10, value: 0x1234 })] {
+        v.push((format!("resp_{}_unit{unit}", r.kind().name()), r.clone(), rtu_frame(unit, &genuine_reply(&r, 77))));
+        v.push((format!("exc_{}_unit{unit}", r.kind().name()), r.clone(), rtu_frame(unit, &[r.kind().fc() | 0x80, 0x02])));
+    }
     for r in reqs {
         let pdu = genuine_reply(&r, 77);
         v.push((format!("resp_{}", r.kind().name()), r.clone(), rtu_frame(UNIT, &pdu)));
@@ -179,13 +186,14 @@ fn server_one(name: &str, frame: &[u8], c: &Corruption, idx: usize, seed: u64, e
     let bad = apply(frame, c);
     let mut rng = Rng::sub(seed, 106, idx as u64);
     let mut stores = BTreeMap::new();
-    stores.insert(UNIT, Store::new(99, UNIT, 0));
+    let unit = frame[0];
+    stores.insert(unit, Store::new(99, unit, 0));
     // the corrupted unit id may address another unit: configure that one too so that a
     // wrongly accepted frame would have an observable effect
-    if bad[0] != UNIT && bad[0] != 0 {
+    if bad[0] != unit && bad[0] != 0 {
         stores.insert(bad[0], Store::new(98, bad[0], 0));
     }
-    let sentinel = rtu_frame(UNIT, &[3, 0, 1, 0, 1]);
+    let sentinel = rtu_frame(unit, &[3, 0, 1, 0, 1]);
     let mut script = vec![In::Chunk(sentinel)];
     script.extend(chunking(&bad, idx, &mut rng));
     script.push(In::Eof);
@@ -247,6 +255,7 @@ fn client_one(name: &str, req: &ClientReq, frame: &[u8], c: &Corruption, idx: us
     };
     let req2 = req.clone();
     let bad2 = bad.clone();
+    let unit = frame[0];
     let result = run_paused(|| async move {
         let seq = Seq::default();
         let (io, handle) = sim_io(vec![], seq.clone());
@@ -264,7 +273,7 @@ fn client_one(name: &str, req: &ClientReq, frame: &[u8], c: &Corruption, idx: us
         let task = tokio::spawn(async move { sim.run_session(Box::new(io)).await });
         channel.enable().await.unwrap();
         let slot = Slot::new(tokio::time::Instant::now(), seq.clone());
-        let _ = submit(&channel, ALL_STYLES_API[idx % 3], UNIT, Duration::from_millis(100), &req2, slot.clone()).await;
+        let _ = submit(&channel, ALL_STYLES_API[idx % 3], unit, Duration::from_millis(100), &req2, slot.clone()).await;
         let _ = tokio::time::timeout(Duration::from_secs(5), slot.wait()).await;
         settle().await;
         drop(channel);
@@ -604,7 +613,7 @@ pub fn run(args: &Args) -> i32 {
         exhaustive: Some(false),
         floors: vec![
             ("server_corruptions_executed".into(), args.tier.pick(150_000, 5_000_000)),
-            ("client_corruptions_executed".into(), args.tier.pick(100_000, 1_000_000)),
+            ("client_corruptions_executed".into(), args.tier.pick(100_000, 800_000)),
             ("emitted_frames_crc_checked".into(), args.tier.pick(5_000, 200_000)),
             ("used_link_frames".into(), args.tier.pick(100_000, 3_000_000)),
             ("used_link_client_responses".into(), args.tier.pick(30_000, 1_000_000)),
